@@ -3,27 +3,29 @@ entry was first written (kept apart so that the original texts stay as they were
 
 ADDENDA = {
     "C01": "Quick tier: transfers of more than 65535 blocks for all three wrap configurations.",
+    "C02": "The simulated socket supports non-blocking receives (only datagrams that follow their predecessor without delay "
+           "are there to be read).",
     "C03": "Handler bodies are also real files, streams positioned behind a consumed preamble and plain streams; a stalled "
            "client must not keep other clients from being served; a missing response is an observation with evidence "
            "(request worker blocked in a receive), judged, not an infrastructure error. A client that stops reading in the middle of a multi-megabyte body and resumes later; storms of connections reset before their request head is complete followed by ordinary requests (an accepting thread that sits in the handling of one connection is the evidence for a missing response).",
-    "C04": "Served tree and request alphabet contain names with '+' and blanks.",
+    "C04": "Served tree and request alphabet contain names with '+' and blanks. Requests with an embedded URL (://) in the query string or the path.",
     "C05": "A third of the handler cases run after one or two earlier requests on the SAME handler object. Update handler: the decodability of the request body is part of the model (bad_request only after the access decision; unauthorised_sqlite_body_irrelevant). IPv6 clients one bit away from the IPv4-mapped form of an allowed address are generated on every run.",
     "C09": "The request port starts a transfer only for a datagram of the RFC shape stated on the bytes (rfcShape, "
            "requestPort_transfer_only_rfc). foreign_noninterference is proved for whole transfers and evaluated on the "
            "implementation by twin runs without the foreign datagrams. HTTP: stalled clients. Handlers may raise in prepare_context / can_handle (processDatagramF and its theorems): the request is lost, the port keeps serving; a request-port thread that ends without stop() and a request left without any answer are violations. About one case in eight runs with the server's logger at DEBUG.",
     "C10": "Several datagrams per session (concurrent transfers judged one by one); HTTP handler lists whose first accepting "
            "handler answers with a bare status. Requests of 509..512 octets; handlers that raise while being asked; the HTTP half sees the query string.",
-    "C11": "The target expressions of the top file are evaluated by the Lean matcher model as well (evalConcrete).",
+    "C11": "The target expressions of the top file are evaluated by the Lean matcher model as well (evalConcrete). Target expressions with not followed by and.",
     "C12": "Histories contain replacements that keep the old modification time and texts that differ only in leading white space. Histories in which a list is merged from several files and a later file changes; histories that only repeat an already applied file.",
     "C14": "Histories contain in-place rewrites of equal length with the old mtime restored (only ctime differs). A liberal line format whose main expression also matches commented-out entries (the ignore expression wins), on every run.",
     "C15": "Deterministic kill points: the writer is SIGKILLed at the entry of its k-th pwrite64 / fdatasync / unlink / "
-           "ftruncate (strace injection); a database a fresh process cannot read is a violation.",
+           "ftruncate (strace injection); a database a fresh process cannot read is a violation. Histories in which a long-lived source is asked for other systems between a change and the next read; a second connection's complete call placed between two SQL statements of a call (results and rows must be those of one of the two sequential orders computed by the model).",
     "C17": "Context values are also mappings, sets and numbers; include names absolute with a dot-dot segment; import_json / "
            "import_yaml of data files; replacements that keep the mtime and a rewrite landing right after the engine read "
            "the rendered file (both without root_dir only). Optional includes (ignore missing) are part of the template syntax of model and reference (Node.inclOpt, inclOpt_meaning).",
     "C06": "Every special character of URLs and pattern languages inside the looked-up value, the remaining path and next to "
            "a fixed segment, on every run; transformations given by keyword with other handlers of the same process using "
-           "the same keyword names and other values.",
+           "the same keyword names and other values. Values that are not str carry their type in every observation.",
     "C08": "The clause \"no transfer size is announced\" is evaluated on the trace (every OACK is the negotiated one, which "
            "has no tsize in netascii mode).",
     "C16": "A grid of prefix lengths in several spellings (/0, /00, /032 ...) on fixed addresses, on every run.",
